@@ -429,6 +429,42 @@ def controller_facts(csrc, src):
              'If:ike_sa.state == IkeSa.State.DELETED', 'Return:return reply']
     if shape != want:
         raise TranslateError(f'ikesacontroller.py: dispatch_message: top-level statements changed: {shape}')
+    # IkeSaController.process_acquire: look-up by addresses, creation of an initiator, the trigger, and (fix 97393b9)
+    # the removal of an initiator that was created for this ACQUIRE and is still INITIAL afterwards
+    pa = csrc.func('IkeSaController.process_acquire')
+    shape = []
+    for st_ in _stmts(pa):
+        if _is_log(st_):
+            continue
+        if isinstance(st_, ast.If):
+            shape.append('If:' + ast.unparse(st_.test)[:60])
+        elif isinstance(st_, ast.Try):
+            shape.append('Try:' + ast.unparse(st_.body[0])[:60])
+        else:
+            shape.append(type(st_).__name__ + ':' + ast.unparse(st_).split('\n')[0][:50])
+    want_a = ["Assign:family = attributes[xfrm.XFRMA_TMPL].family",
+              'Assign:peer_addr = xfrm_acquire.id.daddr.to_ipaddr(family',
+              'Assign:my_addr = xfrm_acquire.saddr.to_ipaddr(family)']
+    want_b = ['Try:ike_sa = self._get_ike_sa_by_addrs(my_addr, peer_addr)',
+              'Assign:sel_family = xfrm_acquire.sel.family',
+              'Assign:small_tsi = TrafficSelector.from_network(ip_networ',
+              'Assign:small_tsr = TrafficSelector.from_network(ip_networ',
+              'Assign:request = ike_sa.process_acquire(small_tsi, small_']
+    want_c = ['Return:return (request, ike_sa.my_addr, ike_sa.peer_addr)']
+    drop = 'If:new_ike_sa and ike_sa.state == IkeSa.State.INITIAL'
+    if shape == want_a + ['Assign:new_ike_sa = False'] + want_b + [drop] + want_c:
+        node = [x for x in _stmts(pa) if isinstance(x, ast.If)][0]
+        body = [ast.unparse(x) for x in node.body if not _is_log(x)]
+        tr = [x for x in _stmts(pa) if isinstance(x, ast.Try)][0]
+        hb = [ast.unparse(x) for x in tr.handlers[0].body if not _is_log(x)]
+        if body != ['self.ike_sas.remove(ike_sa)'] or node.orelse or hb[0] != 'new_ike_sa = True' \
+                or 'self.ike_sas.append(ike_sa)' not in hb:
+            csrc.fail(node, f'process_acquire: drop-unstarted clause changed: {body} / {hb}')
+        found['acquire_drop_unstarted'] = expr_to_gallina(csrc, node.test.values[1], env)[0]
+    elif shape == want_a + want_b + want_c:
+        found['acquire_drop_unstarted'] = 'false'      # the pinned tree before fix 97393b9
+    else:
+        raise TranslateError(f'ikesacontroller.py: process_acquire: statements changed: {shape}')
     init = csrc.func('IkeSaController.__init__')
     th = [s for s in init.body if isinstance(s, ast.Assign) and ast.unparse(s.targets[0]) == 'self.cookie_threshold']
     if len(th) != 1:
@@ -1342,6 +1378,8 @@ def translate(ctx=None):
     L.append(f'Definition dispatch_register_successor (st : Z) (has_successor : bool) : bool := {ctl["register_successor"]}.')
     L.append(f'Definition dispatch_remove (st : Z) : bool := {ctl["remove_deleted"]}.')
     L.append(f'Definition dispatch_drop_ignored (st : Z) : bool := {ctl["drop_ignored"]}.')
+    L.append('\n(* IkeSaController.process_acquire: an initiator created for this ACQUIRE is removed again when ... *)')
+    L.append(f'Definition acquire_drop_unstarted (st : Z) : bool := {ctl["acquire_drop_unstarted"]}.')
     L.append('\n(* cookie check of _process_ike_sa_negotiation_request (it precedes every negotiation step) *)')
     L.append(f'Definition cookie_reject (ncookies : Z) (first_equal : bool) : bool := {cook["cookie_reject"]}.')
     L.append(f'Definition N_COOKIE : Z := {cook["COOKIE"]}.')
